@@ -459,7 +459,55 @@ def c11(ctx):
     ctx.sample({'label': texts[-1][0], 'input': texts[-1][1][:200].decode('utf-8', 'replace')})
     ctx.assumptions += ['hang detection is a bounded watchdog (180 s in-process, 120 s per child) whose expiry is inconclusive, not a violation',
                         'the C API takes NUL-terminated strings: inputs with an embedded NUL reach the export truncated at the NUL']
+    growth_lane(ctx)
     probes(ctx, 'C11')
+
+
+def growth_lane(ctx):
+    """"never hangs", decided without a wall-clock deadline: for input families whose size is one number (nesting depth, list length,
+    number of packets) the CPU time of the compiler child is measured at growing sizes; an (at least) exponential family shows
+    as a constant factor per constant size STEP. Verdict only from ratios of CPU times, and only when the larger one is long
+    enough to be measured (>= 0.5 s): machine speed and load cancel out. Nothing is concluded from a run the watchdog ends."""
+    import resource
+
+    def nest(d):
+        return 'root packet A { ' + ''.join('L%d { u8 X%d, ' % (i, i) for i in range(d)) + ''.join('}, ' for _ in range(d)) + '}'
+
+    def wide(d):
+        return 'root packet A { u8 K, match K as B { %s }, }\n' % ' '.join('%d : P%d,' % (i, i) for i in range(d * 8)) + ''.join('packet P%d { u8 X, }\n' % i for i in range(d * 8))
+
+    def chain(d):
+        return 'root packet P0 { P1 Next, }\n' + ''.join('packet P%d { P%d Next, u8 X, }\n' % (i, i + 1) for i in range(1, d)) + 'packet P%d { u8 X, }' % d
+
+    fams = [('inline-nesting-depth', nest, ['lua']), ('match-pairs-x8', wide, ['lua', 'python']), ('reference-chain-length', chain, ['lua'])]
+    sizes = [8, 12, 16, 20, 24]
+    for name, make_text, langs in fams:
+        prev = None
+        for d in sizes:
+            wd = os.path.join(ctx.scr.dir, 'growth', name, str(d))
+            os.makedirs(wd, exist_ok=True)
+            with open(os.path.join(wd, 'in.dsl'), 'w') as f:
+                f.write(make_text(d))
+            args = [ctx.cli, '-f', 'in.dsl'] + sum([[FLAGS[l], 'o_' + l] for l in langs], [])
+            before = resource.getrusage(resource.RUSAGE_CHILDREN)
+            p = subprocess.run(['timeout', '-s', 'KILL', '90'] + args, stdout=subprocess.DEVNULL, stderr=subprocess.DEVNULL, cwd=wd)
+            after = resource.getrusage(resource.RUSAGE_CHILDREN)
+            cpu = (after.ru_utime - before.ru_utime) + (after.ru_stime - before.ru_stime)
+            shutil.rmtree(wd, ignore_errors=True)
+            ctx.counters['growth-lane-runs'] += 1
+            if p.returncode in (137, -9, 124):
+                cpu = max(cpu, 60.0) if cpu > 30 else None        # ended by the watchdog: usable only if it really burned CPU
+            if cpu is None:
+                break
+            ctx.evaluated(1, key=('growth', name, d))
+            if prev is not None and cpu >= 0.5 and prev[1] > 0 and cpu / max(prev[1], 1e-3) >= 6.0 and (d - prev[0]) <= 4:
+                triage11(ctx, 'growth/' + name, 'cli compile', 'superlinear-blowup', name,
+                         'CPU time of `compile` grows by a factor %.1f (%.2fs -> %.2fs) when %s goes from %d to %d: exponential growth, a valid input of size %d would not terminate in any useful time' % (
+                             cpu / max(prev[1], 1e-3), prev[1], cpu, name, prev[0], d, d + 12),
+                         {'label': 'growth/' + name, 'input_preview': make_text(d)[:400], 'sizes': [prev[0], d], 'cpu_seconds': [prev[1], cpu]})
+                break
+            prev = (d, cpu)
+    ctx.cov['growth_lane'] = 'CPU-time ratios over sizes %s for %s' % (sizes, [f[0] for f in fams])
 
 
 CHECKS['C11'] = c11
